@@ -39,6 +39,10 @@ LEVEL.update({
  "C13":("two-run non-interference: ParseNode with the per-record result cache on vs. off on the same symbolic record, over a schema family built to share declaration text across positions; node pool on/off equivalence is part of the C12 create step; xpath-expression cache: real LRU code executed as part of every harness",
         "declaration hash replaced by its contract; goja caches are C20's"),
 })
+LEVEL.update({
+ "C10":("the real ingester is executed over K symbolic records; each result is compared with an independent evaluation of a copy of that record alone with a fresh context (so no result depends on another record), a failing record is exactly one continuable ErrTransformFailed, every record node is released exactly once before the next read, and the tree under the reader's root does not grow",
+        "FormatReader mock; reader-side cross-record state is covered where it lives (C06 line/record buffers, C12 pool, C13 caches)"),
+})
 REASON_NOT_YET="check under construction in this session (see DESIGN.md §6); not claimed yet"
 m={
  "version":1,
